@@ -2,11 +2,15 @@
 # run registered quick checks against one seeded change applied to /repo, then undo it
 # usage: tools/seed_run.sh <name> <ID> [<ID>...]
 name=$1; shift
-cd /repo && git apply /verif/seeded/$name/patch.diff || { echo "cannot apply"; exit 2; }
+cd /repo
+if ! git apply /verif/seeded/$name/patch.diff 2>/dev/null; then
+  git apply --3way /verif/seeded/$name/patch.diff >/dev/null 2>&1 || { echo "cannot apply $name"; git checkout -q -- .; git reset -q; exit 2; }
+  git reset -q
+fi
 cd /verif
 for id in "$@"; do
   out=$(timeout 900 ./run $id quick 2>&1); code=$?
   echo "== $name vs $id: exit=$code $(echo "$out" | grep -c '^VIOLATION') violation line(s)"
   echo "$out" | grep -A2 "^VIOLATION" | head -8 | cut -c1-220
 done
-git -C /repo checkout -- . ; git -C /repo status --short | head -3
+git -C /repo checkout -q -- . ; git -C /repo reset -q; git -C /repo status --short | head -3
